@@ -31,6 +31,16 @@ theorem neutral (ddt dd m : ℝ) : displace ddt dd 1 1 0 m = (ddt, dd, m) := by
   rw [displace_formula ddt dd 1 1 0 m (by norm_num)]
   norm_num
 
+/-- the rescaling is by the PRODUCT: two negative factors (λ = −1/2, κ = 3) give the total 1, a tiny λ with a large
+    (1−κ) gives their product — no factor is floored on its own -/
+example (ddt dd m : ℝ) : displace ddt dd 1 (-1 / 2) 3 m = (ddt, dd, m) := by
+  rw [displace_formula ddt dd 1 (-1 / 2) 3 m (by norm_num)]
+  norm_num
+
+example (ddt dd m : ℝ) : (displace ddt dd 1 (1 / 12500) (-1 / 2) m).1 = ddt * (3 / 25000) := by
+  rw [displace_formula ddt dd 1 (1 / 12500) (-1 / 2) m (by norm_num)]
+  norm_num
+
 /-- **PPN and MST commute** -/
 theorem ppn_mst_commute (ddt dd γ lam κ m : ℝ) :
     (let p := displacePPN ddt dd γ; displaceMST p.1 p.2 lam κ m) =
